@@ -340,6 +340,10 @@ func (x *executor) checkFrameRef(m *machine, fr *frame, in ssa.Instruction, heap
 		alts = append(alts, lt)
 		for _, mt := range set {
 			if mt.heap == heap && mt.sort == sort {
+				if mt.all {
+					alts = append(alts, tTrue)
+					continue
+				}
 				alts = append(alts, mkEq(ref, mt.ref))
 			}
 		}
